@@ -2316,12 +2316,8 @@ func (r *Runtime) wrapJSFunc(fn Callable, typ reflect.Type) func(args []reflect.
 		if err != nil {
 			if numOut > 0 && typ.Out(numOut-1) == reflectTypeError {
 				if ex, ok := err.(*Exception); ok {
-					if exo, ok := ex.val.(*Object); ok {
-						if v := exo.self.getStr("value", nil); v != nil {
-							if v.ExportType().AssignableTo(reflectTypeError) {
-								err = v.Export().(error)
-							}
-						}
+					if goErr := ex.Unwrap(); goErr != nil {
+						err = goErr
 					}
 				}
 				results[numOut-1] = reflect.ValueOf(err).Convert(typ.Out(numOut - 1))
